@@ -294,8 +294,9 @@ _cache = {}
 
 def family_tables(ctx, family):
     """{order: monomial map}, active order, T2 messages for the active order, locations."""
-    if family in _cache:
-        return _cache[family]
+    ck = (family, ctx.prog.raw.get('precision', 2), id(ctx.prog))
+    if ck in _cache:
+        return _cache[ck]
     fam = FAMILIES[family]
     active = order_of(ctx.prog, family)
     src = os.path.join(ctx.repo, fam['src'])
@@ -316,8 +317,8 @@ def family_tables(ctx, family):
         tabs[o], t2[o], w = decode_family(progs[o], family, o)
         if o == active:
             where = w
-    _cache[family] = (tabs, active, t2, where)
-    return _cache[family]
+    _cache[ck] = (tabs, active, t2, where)
+    return _cache[ck]
 
 
 def rule_T1(ctx, family, tags=None, title=None, keep=None):
